@@ -132,6 +132,7 @@ func init() {
 	// an independent definition, every byte string of the length, validated natively
 	selfParse := func(maxLen int64) []Inst {
 		var out []Inst
+		out = append(out, Inst{Pkg: "knx", Fn: "HarnessSelfTestItoa", ForceNative: true, Note: "decimal formatter behind strconv.Itoa/FormatUint/AppendUint, every 16-bit value"})
 		for n := int64(0); n <= maxLen; n++ {
 			for sg := int64(0); sg < 2; sg++ {
 				out = append(out, Inst{Pkg: "knx", Fn: "HarnessSelfTestParse", Args: []int64{n, sg}, ForceNative: true, Note: "summary of strconv.ParseInt/ParseUint vs an independent definition"})
@@ -143,7 +144,7 @@ func init() {
 		ID:       "C18",
 		Quick:    func(l *loaded) []Inst { return append(c18(5, false), selfParse(5)...) },
 		Thorough: func(l *loaded) []Inst { return append(c18(8, true), selfParse(7)...) },
-		Covers:   []string{"C18.rt.end", "C18.ctor.end", "C18.parse.accept", "C18.parse.reject", "self.parse.end"},
+		Covers:   []string{"C18.rt.end", "C18.ctor.end", "C18.parse.accept", "C18.parse.reject", "self.parse.end", "self.itoa.end"},
 		Bounds:   "round trip: all 65535 non-zero addresses of both kinds (one symbolic 16-bit variable); constructors: all argument values; acceptance: every byte string of length 0..5 (quick) / 0..8 (thorough) fully symbolic against an independent recogniser of the documented language, plus grammar-shaped texts of 1..4 components with 1..5 symbolic digits each, optional signs and symbolic separator bytes",
 		Outside:  "fully symbolic strings longer than 8 bytes; components longer than 5 digits; strings with non-ASCII digits are covered only as arbitrary bytes",
 		Assume:   []string{"strings.Split and strconv.Atoi are executed from their real SSA; strconv.ParseInt/ParseUint in base 10 on strings with symbolic characters are summarised (sign, all-digits, range: three branches instead of several per character) - the summary is checked against an independent definition for every byte string of length 0..5 (7) and validated natively; internal/bytealg.IndexByteString/CountString and strconv.syntaxError/rangeError are engine built-ins", "fmt.Sprintf(\"%d...\") is a built-in decimal formatter validated by native replay"},
@@ -253,14 +254,18 @@ func init() {
 		return out
 	}
 	reg(&Spec{
-		ID:       "C07",
-		Solver:   "cvc5",
-		Quick:    func(l *loaded) []Inst { return c07(l, false) },
-		Thorough: func(l *loaded) []Inst { return c07(l, true) },
-		Covers:   []string{"C07.inrange", "C07.above", "C07.below", "C07.mono.end", "C07.int.end", "C07.struct.valid", "C07.struct.invalid", "C07.string.end"},
-		Bounds:   "float-valued types (5.001, 5.003, 8.003/4/10, all 9.xxx): the complete finite float32 domain as one symbolic 32-bit pattern: accuracy (within the step of the exponent chosen; for 9.001 - thorough: every 9.xxx - also within the step of the smallest exponent that can hold the value, so a needlessly coarse exponent is a violation), saturation (incl. the bounds themselves being encoded accurately), shape, self-decodability; monotonicity by the adjacent-float lemma (quick: 5.xxx, 8.xxx and the four distinct clamp pairs of 9.xxx; thorough: every type); integer/bool/enumeration types: all values; struct types: all field values including invalid combinations; strings: lengths 0..16 (thorough ..40) with two fully symbolic rune positions, and 3 fully symbolic runes",
-		Outside:  "strings with more than two simultaneously symbolic runes beyond length 3; in the quick tier in-range accuracy and monotonicity of the 9.xxx types are decided for the four distinct clamp pairs (9.001, 9.002, 9.004, 9.027) and only saturation/shape for the other sixteen (all share packF16; C06 decides their in-range re-encoding per type)",
-		Assume:   []string{"tolerance step*(1+2^-10) absorbs the decoder's own float32 evaluation error (DESIGN B.3)"},
+		ID:     "C07",
+		Solver: "cvc5",
+		Quick: func(l *loaded) []Inst {
+			return append(c07(l, false), Inst{Pkg: "dpt", Fn: "HarnessSelfTestMaxMin", ForceNative: true, Note: "engine model of math.Max/math.Min vs their documented special cases, all pairs of float64 bit patterns"})
+		},
+		Thorough: func(l *loaded) []Inst {
+			return append(c07(l, true), Inst{Pkg: "dpt", Fn: "HarnessSelfTestMaxMin", ForceNative: true})
+		},
+		Covers:  []string{"C07.inrange", "C07.above", "C07.below", "C07.mono.end", "C07.int.end", "C07.struct.valid", "C07.struct.invalid", "C07.string.end", "self.maxmin.end"},
+		Bounds:  "float-valued types (5.001, 5.003, 8.003/4/10, all 9.xxx): the complete finite float32 domain as one symbolic 32-bit pattern: accuracy (within the step of the exponent chosen; for 9.001 - thorough: every 9.xxx - also within the step of the smallest exponent that can hold the value, so a needlessly coarse exponent is a violation), saturation (incl. the bounds themselves being encoded accurately), shape, self-decodability; monotonicity by the adjacent-float lemma (quick: 5.xxx, 8.xxx and the four distinct clamp pairs of 9.xxx; thorough: every type); integer/bool/enumeration types: all values; struct types: all field values including invalid combinations; strings: lengths 0..16 (thorough ..40) with two fully symbolic rune positions, and 3 fully symbolic runes",
+		Outside: "strings with more than two simultaneously symbolic runes beyond length 3; in the quick tier in-range accuracy and monotonicity of the 9.xxx types are decided for the four distinct clamp pairs (9.001, 9.002, 9.004, 9.027) and only saturation/shape for the other sixteen (all share packF16; C06 decides their in-range re-encoding per type)",
+		Assume:  []string{"tolerance step*(1+2^-10) absorbs the decoder's own float32 evaluation error (DESIGN B.3)"},
 	})
 
 	c01 := func(maxL int64, descrL int64) []Inst {
